@@ -268,23 +268,79 @@ func main() {
 
 	// ---- cmd/thermal-recorder/cptvfilerecorder.go: glob patterns of deleteTempFiles
 	cf := parse(*repo, "cmd/thermal-recorder/cptvfilerecorder.go")
-	var globs []string
-	var subdirs []string
+	// deleteTempFiles: the glob patterns and directories it covers. String expressions are
+	// evaluated (literals, constants, +); path.Join(directory, "x") is recorded as "x" and the
+	// bare parameter as ".".
+	var strEval func(e ast.Expr) (string, bool)
+	strEval = func(e ast.Expr) (string, bool) {
+		switch x := e.(type) {
+		case *ast.BasicLit:
+			if x.Kind == token.STRING {
+				v, err := strconv.Unquote(x.Value)
+				return v, err == nil
+			}
+		case *ast.Ident:
+			if v, ok := strConst(rc, x.Name); ok {
+				return v, true
+			}
+		case *ast.BinaryExpr:
+			if x.Op == token.ADD {
+				a, ok1 := strEval(x.X)
+				b, ok2 := strEval(x.Y)
+				return a + b, ok1 && ok2
+			}
+		case *ast.ParenExpr:
+			return strEval(x.X)
+		}
+		return "", false
+	}
+	var patterns, dirs []string
 	if fd := funcDecl(cf, "deleteTempFiles"); fd != nil {
+		param := ""
+		if fd.Type.Params != nil && len(fd.Type.Params.List) > 0 && len(fd.Type.Params.List[0].Names) > 0 {
+			param = fd.Type.Params.List[0].Names[0].Name
+		}
+		seen := map[string]bool{}
 		ast.Inspect(fd, func(n ast.Node) bool {
-			if bl, ok := n.(*ast.BasicLit); ok && bl.Kind == token.STRING {
-				s, _ := strconv.Unquote(bl.Value)
-				if strings.Contains(s, "*") || strings.HasPrefix(s, ".") {
-					globs = append(globs, s)
-				} else if s != "" {
-					subdirs = append(subdirs, s)
+			switch x := n.(type) {
+			case *ast.CompositeLit:
+				for _, el := range x.Elts {
+					if v, ok := strEval(el); ok {
+						if strings.Contains(v, "*") && !seen[v] {
+							patterns = append(patterns, v)
+							seen[v] = true
+						}
+					} else if id, ok := el.(*ast.Ident); ok && id.Name == param {
+						dirs = append(dirs, ".")
+					} else if call, ok := el.(*ast.CallExpr); ok && len(call.Args) == 2 {
+						if v, ok := strEval(call.Args[1]); ok {
+							dirs = append(dirs, v)
+						}
+					}
+				}
+			case *ast.CallExpr: // the original single-pattern form: filepath.Glob(filepath.Join(directory, "*."+cptvTempExt))
+				if sel, ok := x.Fun.(*ast.SelectorExpr); ok && sel.Sel.Name == "Join" && len(x.Args) == 2 {
+					if v, ok := strEval(x.Args[1]); ok && strings.Contains(v, "*") && !seen[v] {
+						patterns = append(patterns, v)
+						seen[v] = true
+						if id, ok := x.Args[0].(*ast.Ident); ok && id.Name == param {
+							dirs = append(dirs, ".")
+						}
+					}
 				}
 			}
 			return true
 		})
 	}
-	o.str("delete_temp_globs", strings.Join(globs, "|"), "string literals with wildcards in deleteTempFiles (suffix patterns appended to cptvTempExt)")
-	o.str("delete_temp_subdirs", strings.Join(subdirs, "|"), "other string literals in deleteTempFiles")
+	qs := func(ss []string) string {
+		var p []string
+		for _, s := range ss {
+			p = append(p, "\""+s+"\"")
+		}
+		return "[" + strings.Join(p, "; ") + "]"
+	}
+	o.lines = append(o.lines, fmt.Sprintf("Definition delete_temp_patterns : list string := %s. (* cmd/thermal-recorder/cptvfilerecorder.go: deleteTempFiles *)", qs(patterns)))
+	o.lines = append(o.lines, fmt.Sprintf("Definition delete_temp_dirs : list string := %s. (* directories deleteTempFiles covers, relative to the output directory *)", qs(dirs)))
 
 	// ---- cmd/leptond/main.go
 	lm := parse(*repo, "cmd/leptond/main.go")
